@@ -40,6 +40,30 @@ Proof.
   destruct (N.eqb_spec m 0); [lia|]. destruct i; [reflexivity|]. cbn [nth]. apply IH. lia.
 Qed.
 
+Lemma frame_enc_block (c : ciphers) (z padding : bytes) :
+  4 <= encBlock c -> len padding = send_pad c (len z) -> len (frame z padding) < 4294967296 ->
+  len (frame z padding) mod encBlock c = 0 /\
+  be32 (take 4 (frame z padding)) + 4 = len (frame z padding) /\
+  nth 4 (frame z padding) 0 = len padding /\ 4 <= len padding /\ len padding <= encBlock c + 3.
+Proof.
+  intros Hb Hp Hlt. unfold send_pad in Hp.
+  assert (len (frame z padding) = 5 + len z + len padding) as L.
+  { unfold frame, enc32. rewrite !len_app. unfold len. cbn [length]. lia. }
+  destruct (pad_len_ok (encBlock c) (len z) Hb) as (Hm & H4 & Hu). rewrite <- Hp in Hm, H4, Hu.
+  split; [rewrite L; exact Hm|]. split; [|split; [reflexivity|split; assumption]].
+  assert (take 4 (frame z padding) = enc32 (1 + len z + len padding)) as ->.
+  { unfold frame. change 4 with (len (enc32 (1 + len z + len padding))). apply take_app_exact. }
+  rewrite be32_enc32 by lia. lia.
+Qed.
+
+(** outgoing AES (16-byte blocks), incoming 3DES or none (8): a 14-byte payload is padded with 13 bytes to 32 = 2 x 16;
+    padding to the INCOMING block size would give 5 bytes and a 24-byte packet, not a whole number of AES blocks *)
+Example pad_16_out_8_in :
+  let c := mkcip 16 8 in
+  send_pad c 14 = 13 /\ (5 + 14 + send_pad c 14) mod 16 = 0 /\
+  pad_len (decBlock c) 14 = 5 /\ (5 + 14 + pad_len (decBlock c) 14) mod 16 = 8.
+Proof. vm_compute. repeat split; reflexivity. Qed.
+
 Section RT.
   Variables ES DS CS ZS : Type.
   Variable enc : ES -> bytes -> bytes * ES.
@@ -136,13 +160,15 @@ Section RT.
   Lemma stream_roundtrip : forall items seq e c d z,
     csync e d -> zsync c z -> all_sendable (mks _ _ seq e c) items ->
     exists x', spec_parse DS ZS dec verify decomp bs ms (mkm _ _ true seq d z) (fst (send_all (mks _ _ seq e c) items))
-               = (map (fun it => EDeliver (fst it)) items, Some (x', [])).
+               = (map (fun it => EDeliver (fst it)) items, Some (x', []))
+               /\ inseq _ _ x' = seq + len items /\ gotv _ _ x' = true.
   Proof.
     assert (Hb0 : 0 < bs) by lia.
     induction items as [|[p pad] r IH]; intros seq e c d z Hc Hz Hall; unfold spec_parse in *.
     - cbn [send_all fst map]. rewrite (fdrain_unfold' DS ZS dec verify decomp bs ms Hb0).
       unfold Model.astep, Model.packet_step. cbn [gotv].
-      destruct (N.ltb_spec (len (@nil N)) bs) as [_|Hx]; [eauto|]. rewrite len_nil in Hx. lia.
+      destruct (N.ltb_spec (len (@nil N)) bs) as [_|Hx]; [|rewrite len_nil in Hx; lia].
+      eexists. split; [reflexivity|]. cbn [inseq gotv]. rewrite len_nil. split; [lia|reflexivity].
     - cbn [send_all all_sendable] in *. destruct Hall as [Hs Hrest].
       destruct (send_packet (mks _ _ seq e c) p pad) as [w s1] eqn:Esend.
       destruct (send_all s1 r) as [w' s2] eqn:Eall. cbn [fst snd] in *.
@@ -150,8 +176,8 @@ Section RT.
       rewrite (fdrain_unfold' DS ZS dec verify decomp bs ms Hb0).
       unfold Model.astep at 1. cbn [gotv]. rewrite Hstep.
       destruct s1 as [seq1 e1 c1]. cbn [oseq es cs] in *. subst seq1.
-      destruct (IH (seq + 1) e1 c1 d' z' Hc' Hz' Hrest) as (x' & Hx). rewrite Eall in Hx. cbn [fst] in Hx.
-      rewrite Hx. cbn [map fst app]. eauto.
+      destruct (IH (seq + 1) e1 c1 d' z' Hc' Hz' Hrest) as (x' & Hx & Hq & Hg). rewrite Eall in Hx. cbn [fst] in Hx.
+      rewrite Hx. cbn [map fst app]. exists x'. split; [reflexivity|]. rewrite len_cons. split; [lia|exact Hg].
   Qed.
 
   (** sender stream, cut into deliveries in any way, through the receiver as written *)
@@ -163,12 +189,45 @@ Section RT.
     = map (fun it => EDeliver (fst it)) items.
   Proof.
     intros Hc Hz Hall Hne Hcat.
-    destruct (stream_roundtrip items seq e c d z Hc Hz Hall) as (x' & Hx).
+    destruct (stream_roundtrip items seq e c d z Hc Hz Hall) as (x' & Hx & _ & _).
     rewrite (any_segmentation DS ZS dec verify decomp bs ms ltac:(lia) (mkm _ _ true seq d z) chunks _ Hcat).
     - rewrite Hx. reflexivity.
     - unfold Model.astep, Model.packet_step. cbn [gotv]. destruct (N.ltb_spec (len (@nil N)) bs) as [|Hx0]; [reflexivity|].
       rewrite len_nil in Hx0. lia.
     - rewrite Hx. cbn [fst]. clear - Hne. induction Hne as [|it r H _ IH]; cbn [map]; constructor; auto.
       destruct it as [p pad]. cbn in *. destruct p; [congruence|exact I].
+  Qed.
+
+  (** ---------- re-keying: at every NEWKEYS the cipher AND compression contexts of a direction are replaced, on both
+      ends, by fresh synchronised ones; the sequence numbers are not reset (RFC 4253 section 7.3 / 6.4) ---------- *)
+  Record epoch := mkep { ep_e : ES; ep_c : CS; ep_d : DS; ep_z : ZS; ep_items : list (bytes * bytes) }.
+
+  (** every key generation starts from synchronised contexts and frames sendable packets *)
+  Fixpoint epochs_ok (seq : N) (eps : list epoch) : Prop :=
+    match eps with
+    | [] => True
+    | ep :: r => csync (ep_e ep) (ep_d ep) /\ zsync (ep_c ep) (ep_z ep) /\
+                 all_sendable (mks _ _ seq (ep_e ep) (ep_c ep)) (ep_items ep) /\
+                 epochs_ok (seq + len (ep_items ep)) r
+    end.
+
+  (** the receiver across re-keys: each generation's stream is parsed with that generation's decryptor and
+      decompressor, the incoming sequence number running on *)
+  Fixpoint parse_epochs (seq : N) (eps : list epoch) : list ev :=
+    match eps with
+    | [] => []
+    | ep :: r =>
+        fst (spec_parse DS ZS dec verify decomp bs ms (mkm _ _ true seq (ep_d ep) (ep_z ep))
+                        (fst (send_all (mks _ _ seq (ep_e ep) (ep_c ep)) (ep_items ep))))
+        ++ parse_epochs (seq + len (ep_items ep)) r
+    end.
+
+  Lemma epochs_roundtrip : forall eps seq, epochs_ok seq eps ->
+    parse_epochs seq eps = flat_map (fun ep => map (fun it => EDeliver (fst it)) (ep_items ep)) eps.
+  Proof.
+    induction eps as [|ep r IH]; intros seq H; [reflexivity|]. cbn [parse_epochs flat_map epochs_ok] in *.
+    destruct H as (Hc & Hz & Hs & Hr).
+    destruct (stream_roundtrip (ep_items ep) seq (ep_e ep) (ep_c ep) (ep_d ep) (ep_z ep) Hc Hz Hs) as (x' & Hx & _ & _).
+    rewrite Hx. cbn [fst]. rewrite (IH _ Hr). reflexivity.
   Qed.
 End RT.
